@@ -14,6 +14,7 @@ import (
 	"os"
 	"strconv"
 	"sync"
+	"sync/atomic"
 	"time"
 
 	"verifharness/proto"
@@ -43,6 +44,12 @@ func call(h Handler, args []string) (r reply) {
 	}
 	return reply{"ok", out}
 }
+
+var uniq atomic.Int64
+
+// Unique returns a number no other call in this process gets: ops that need a scratch file name use it, so
+// that requests executed concurrently (VERIF_PAR) never share a file.
+func Unique() int64 { return uniq.Add(1) }
 
 // stdout of the protocol; set by Main
 var stdout *bufio.Writer
@@ -86,6 +93,13 @@ func Main() {
 	out := bufio.NewWriterSize(os.Stdout, 1<<20)
 	stdout = out
 	defer out.Flush()
+	// VERIF_PAR=k (k > 1): requests are executed k at a time in concurrent goroutines and answered in order.
+	// For ops that are functions of their arguments this puts every library call next to k-1 other calls
+	// (shared scratch buffers, caches and pools show up as wrong answers, and as reports under -race).
+	if k, _ := strconv.Atoi(os.Getenv("VERIF_PAR")); k > 1 {
+		mainPar(in, out, k, timeout, flushEach)
+		return
+	}
 	for {
 		line, err := in.ReadString('\n')
 		if len(line) > 0 && line[len(line)-1] == '\n' {
@@ -116,6 +130,52 @@ func Main() {
 		}
 		if err != nil {
 			break
+		}
+	}
+}
+
+// mainPar is Main's loop for VERIF_PAR=k: batches of k requests run concurrently; replies keep the order of
+// the requests. A batch shares one deadline; at the deadline the replies of the requests before the first
+// unfinished one are written, that one is answered `timeout`, and the process exits with status 3 (the check
+// restarts the harness on the remaining requests, which re-runs the rest of the batch).
+func mainPar(in *bufio.Reader, out *bufio.Writer, k int, timeout time.Duration, flushEach bool) {
+	eof := false
+	for !eof {
+		var dones []chan reply
+		for len(dones) < k {
+			line, err := in.ReadString('\n')
+			if len(line) > 0 && line[len(line)-1] == '\n' {
+				line = line[:len(line)-1]
+			}
+			if err != nil {
+				eof = true
+				if line == "" {
+					break
+				}
+			}
+			fields := proto.Fields(line)
+			done := make(chan reply, 1)
+			if h, ok := handlers[fields[0]]; ok {
+				go func() { done <- call(h, fields[1:]) }()
+			} else {
+				done <- reply{"err", []string{"unknown-op " + fields[0]}}
+			}
+			dones = append(dones, done)
+			if eof {
+				break
+			}
+		}
+		deadline := time.After(timeout)
+		for _, done := range dones {
+			select {
+			case r := <-done:
+				fmt.Fprintln(out, proto.Line(append([]string{r.status}, r.fields...)...))
+				if flushEach {
+					out.Flush()
+				}
+			case <-deadline:
+				timeoutExit(nil)
+			}
 		}
 	}
 }
